@@ -36,10 +36,67 @@ pub(crate) fn decode(
     data: &[u8],
 ) -> Result<Vec<Vec<u8>>, Box<dyn std::error::Error + Send + Sync>> {
     // decode the RLE encoding first
-    let buf = bitfield_rle::decode(data)?;
+    let buf = rle_decode(data)?;
 
     // decode the delta-encoding
     delta_decode(reference, &buf)
+}
+
+/// Upper bound for the run-length-decoded size of one input packet: the most a sender can have
+/// pending (128 unacknowledged inputs plus the newest one), each with its 2-byte length prefix
+/// and the largest encodable input.
+const MAX_DECODED_BYTES: usize = 129 * (2 + u16::MAX as usize);
+
+/// Decodes the run-length layer written by `bitfield_rle::encode`. Unlike `bitfield_rle::decode`,
+/// this is total: truncated or overlong run headers, literal runs reaching past the end of the
+/// data and outputs larger than `MAX_DECODED_BYTES` are errors, not panics or huge allocations.
+fn rle_decode(data: &[u8]) -> Result<Vec<u8>, Box<dyn std::error::Error + Send + Sync>> {
+    let mut output = Vec::new();
+    let mut pos = 0;
+
+    while pos < data.len() {
+        // read the varint run header
+        let mut header: u64 = 0;
+        let mut shift: u32 = 0;
+        loop {
+            let Some(&byte) = data.get(pos) else {
+                return Err("truncated run header".into());
+            };
+            pos += 1;
+            let bits = u64::from(byte & 0x7F);
+            if shift > 63 || (shift == 63 && bits > 1) {
+                return Err("run header overflows".into());
+            }
+            header += bits << shift;
+            shift += 7;
+            if byte & 0x80 == 0 {
+                break;
+            }
+        }
+
+        if header & 1 == 1 {
+            // a run of 0x00 or 0xFF bytes
+            let len = header >> 2;
+            if len > (MAX_DECODED_BYTES - output.len()) as u64 {
+                return Err("decoded data too large".into());
+            }
+            let fill = if header & 2 == 0 { 0x00 } else { 0xFF };
+            output.resize(output.len() + len as usize, fill);
+        } else {
+            // a literal run
+            let len = header >> 1;
+            if len > (data.len() - pos) as u64 {
+                return Err("truncated literal run".into());
+            }
+            if len > (MAX_DECODED_BYTES - output.len()) as u64 {
+                return Err("decoded data too large".into());
+            }
+            output.extend_from_slice(&data[pos..pos + len as usize]);
+            pos += len as usize;
+        }
+    }
+
+    Ok(output)
 }
 
 fn delta_decode(
